@@ -410,8 +410,9 @@ theorem parse_trichotomy (s : List Char) :
 /-- **C04 (totality).** The parser model is a total function on all strings: every repetition
 (`many0`, `fold_many0`, `many_till`, `separated_list`) recurses structurally on fuel = remaining
 length + 1 and nesting on fuel = length + 2, so Lean's termination checker accepted it without
-`partial`.  (That the fuel never runs out — answer `unmodelled "fuel"` — is checked by the PARSE
-correspondence, which never saw it; it is not proved here.) -/
+`partial`.  That the fuel never runs out — answer `unmodelled "fuel"` — is a separate theorem:
+`C04_parse_never_out_of_fuel` in AgProofs/Props/C04fuel.lean (for every input).  This statement
+itself is definitional and kept only as the place where that is said. -/
 theorem C04_total (s : String) : ∃ r : ParseResult, parseQuery s = r := ⟨_, rfl⟩
 
 /-! ### fuel sufficiency of the repetition combinators (partial) -/
@@ -550,9 +551,9 @@ theorem sepLoop_fuel {α β} (sep : P β) (f : P α) (hls : NonLengthening sep) 
 
 /-- **C04 (fuel, partial).** With the fuel the model uses (`remaining length + 1`) none of the four
 repetition combinators runs out of fuel, provided the element parsers do not lengthen their input
-and do not themselves run out of fuel.  (Partial: the two side conditions are not yet proved for
-every grammar function, so `parseChars s ≠ unmodelled "fuel"` for all `s` is not a theorem; the
-PARSE correspondence never observed that answer.) -/
+and do not themselves run out of fuel.  (The two side conditions are proved for every grammar function — in the stronger,
+length-bounded form `Good` — in AgProofs/Props/C04fuel.lean, where `parseChars s ≠ unmodelled
+"fuel"` for all `s` is `C04_parse_never_out_of_fuel`.) -/
 theorem C04_fuel_partial {α β} (f : P α) (g : P β) (hl : NonLengthening f) (hlg : NonLengthening g)
     (hf : FuelOK f) (hg : FuelOK g) (i : List Char) (e : Nat) :
     many0 f i e ≠ .unmod "fuel" ∧ manyTill f g i e ≠ .unmod "fuel" ∧
